@@ -9,6 +9,8 @@ package leveldbstorage
 //
 // exfound: outcome of the last Exists (1 found, 0 not found, 2 error)
 //@ ghost exfound int
+// bdel: number of deletions recorded in leveldb batches
+//@ ghost bdel int
 //@ func (*Storage).Get
 //@   trusted
 //@   pure
@@ -92,6 +94,8 @@ package leveldbstorage
 //@   trusted
 //@ func (*Batch).Delete
 //@   trusted
+//@   modifies ghost:bdel
+//@   ensures bdel == old(bdel) + 1
 //@ func (*Batch).Reset
 //@   trusted
 //@ func (*Batch).Len
@@ -107,6 +111,8 @@ package leveldbstorage
 //@ func (*PrefixStorageBatch).Delete
 //@   prop C25
 //@   requires b != nil && b.Batch != nil && len(b.prefix) < 1099511627776 && len(key) < 1099511627776
+//@   modifies ghost:bdel
+//@   ensures bdel == old(bdel) + 1
 //@   callsite Delete requires len(a0) >= len(b.prefix) && forall(q, 0 <= q && q < len(b.prefix) ==> a0[q] == b.prefix[q]) && forall(q, 0 <= q && q < len(key) ==> a0[len(b.prefix) + q] == key[q])
 
 // not verified here (range rewriting over goleveldb iterators, batches): trusted
